@@ -96,7 +96,10 @@ def check_module(res, c, T):
     p.modules[1] = None  # detach from the scratch project without touching the module's state
     m.parent, m.index = None, None
     syn2 = api.Synth(m)
-    applied = c06.mutate_live(syn2, _random.Random(c.seed * 7919 + c.index), 8, prefer=("/effect/", "/payload/"))
+    # controllers of modules embedded in a live (constructed) MetaModule are excluded: assigning them pushes values through
+    # the MetaModule's user-defined controllers (DESIGN 6.12: those are synchronised the public way, not judged here)
+    applied = c06.mutate_live(syn2, _random.Random(c.seed * 7919 + c.index), 8, prefer=("/effect/", "/payload/"),
+                              exclude=lambda pth: "/payload/project/" in pth and "/controllers/" in pth)
     if applied:
         res.count("resave_after_edit")
         S_new = build.norm_module(snapshot.snap_module(m, "synth"), "before")
